@@ -712,7 +712,11 @@ def warm(pid, script="narrowb"):
 
 
 def _is_hang(r):
-    return r.get("exc") == "TIMEOUT" or str(r.get("exc", "")).startswith("PROCESS-")
+    """a result that may be an artefact of the machine rather than of /repo's code: per-call timeout, dead worker, or a
+    numba on-disk cache race between worker processes (first run after a change of /repo)"""
+    if r.get("exc") == "TIMEOUT" or str(r.get("exc", "")).startswith("PROCESS-"):
+        return True
+    return "exc" in r and ("numba/core/caching.py" in r.get("tb", "") or "no compiled object yet" in r.get("exc_msg", ""))
 
 
 def run_cases(pid, cases, tag="implb", timeout=1500, jit=True, per_worker_min=4, script="narrowb", retry_timeout=120):
@@ -920,11 +924,3 @@ def statement_coverage(pid, cases, n=64, workers=8):
         out[f] = dict(statements=len(ex), executed=len(got), percent=round(100.0 * len(got) / max(1, len(ex)), 1),
                       never_executed_lines=missed[:40])
     return out
-
-
-# ----------------------------------------------------------------------------- input-class predicates of known findings
-def is_FN2(s1, s2):
-    """F-N2: two ellipsoids (no Margin) with the same pose and radii whose first radius is exactly 0.5: in pass 2 of the
-    accelerated loop momentum = 1/2, ray_dir = (1,0,0), y = (-1,0,0) cancel exactly"""
-    return (s1.get("kind") == "ellipsoid" and s2.get("kind") == "ellipsoid" and "margin" not in s1 and "margin" not in s2
-            and s1.get("pose") == s2.get("pose") and s1.get("radii") == s2.get("radii") and float(s1["radii"][0]) == 0.5)
